@@ -22,7 +22,7 @@ var systems = []semver.System{semver.DefaultSystem, semver.NPM, semver.Cargo, se
 
 func TestMain(m *testing.M) {
 	kf, _ = known.Load(ev.KnownFile())
-	rec.Rule("pairs (A,B) of grammar-generated constraints per system (Default, NPM, Cargo, Go) and a candidate pool derived from the bounds of A and B (each literal, its ±1 neighbours, prerelease and build variants) plus random versions; oracle = pointwise set semantics: union = or, intersection = and (release versions; every version under prerelease-inclusive matching), Empty() implies nothing matches, commutativity, invariance under permuting || alternatives, argument not modified. One evaluation = one (A,B,v). Non-trivial: A and B both non-empty and v is a bound or a neighbour of a bound of A or B. Distinct = distinct (system,A,B,v).")
+	rec.Rule("pairs (A,B) of grammar-generated constraints per system (Default, NPM, Cargo, Go) and a candidate pool derived from the bounds of A and B (each literal, its ±1 neighbours, prerelease and build variants) plus random versions; oracle = pointwise set semantics: union = or, intersection = and (release versions; every version under prerelease-inclusive matching), Empty() implies nothing matches, commutativity, invariance under permuting || alternatives, argument not modified. One evaluation = one (A,B,v). Non-trivial: A and B both non-empty and v is a bound or a neighbour of a bound of A or B. Distinct = distinct (system,A,B,v). Operands are also drawn in the set syntax (spans in any order, open lower bounds at a release, one-version gaps), candidates include the short forms of a literal's numbers, and the constraint a receiver was taken from with Set() must print the same after Union/Intersect.")
 	rec.Assume("each operation uses freshly parsed operands (Union/Intersect overwrite the receiver by contract)")
 	ev.Main(m, rec)
 }
